@@ -270,7 +270,10 @@ type faultCase struct {
 	Pipelined bool   `json:"pipelined"`
 	Warm      bool   `json:"warm"`
 	TCP       bool   `json:"tcp"`
-	Idx       int    `json:"idx"`
+	// Logger: a har.Logger with body logging is installed as request and
+	// response modifier (it snapshots bodies through messageview).
+	Logger bool `json:"logger"`
+	Idx    int  `json:"idx"`
 }
 
 func runTruncBatch(r *vh.Run, child int, tcp bool) {
@@ -285,7 +288,7 @@ func runTruncBatch(r *vh.Run, child int, tcp bool) {
 			}
 			for _, v := range variants {
 				idx++
-				fc := faultCase{Kind: "trunc", Fault: "trunc", R: ri, RName: c.Name, K: k, Pipelined: v&1 == 1, Warm: v&2 == 2, Idx: idx}
+				fc := faultCase{Kind: "trunc", Fault: "trunc", R: ri, RName: c.Name, K: k, Pipelined: v&1 == 1, Warm: v&2 == 2, Logger: (idx/truncBatches)%2 == 1, Idx: idx}
 				if tcp {
 					// a sample of the enumeration over loopback TCP, sequential clients only
 					if idx%r.Pick(16, 24) != 0 {
@@ -308,7 +311,7 @@ func runTruncBatch(r *vh.Run, child int, tcp bool) {
 // "-then-up": the first dial of the address fails, later dials reach a healthy
 // origin, and the follow-up asks for the *same* address. "connect-*": the
 // faulted request is a CONNECT (no MITM) whose dial fails.
-var faultKinds = []string{"refused", "dialerr", "dial-timeout", "accept-close", "garbage-accept", "garbage", "status-garbage",
+var faultKinds = []string{"refused", "dialerr", "dial-timeout", "accept-close", "garbage-accept", "garbage", "status-garbage", "bad-header-bytes",
 	"refused-then-up", "dialerr-then-up", "dial-timeout-then-up", "connect-refused", "connect-dialerr", "connect-dial-timeout"}
 
 // dialTimeout is a timeout-class dial error (net.Error with Timeout() == true).
@@ -330,7 +333,7 @@ func runFaultBatch(r *vh.Run) {
 			for i := 0; i < m; i++ {
 				idx++
 				v := i % 4
-				fc := faultCase{Kind: "fault", Fault: f, Pipelined: v&1 == 1 && !tcp, Warm: v&2 == 2, TCP: tcp, Idx: idx}
+				fc := faultCase{Kind: "fault", Fault: f, Pipelined: v&1 == 1 && !tcp, Warm: v&2 == 2, TCP: tcp, Logger: i%8 >= 4, Idx: idx}
 				r.Case(fc)
 				runFaultCase(r, fc)
 				if stopEarly(r) {
@@ -378,13 +381,19 @@ func runFaultCase(r *vh.Run, c faultCase) {
 		can = l[c.R]
 	}
 	mod := &recMod{}
-	env, err := h1x.Start(h1x.Opts{TCP: c.TCP, ResMod: mod})
+	mk := "rec"
+	if c.Logger {
+		mk = "har"
+	}
+	reqmod, resmod := modifiers(mk, mod)
+	env, err := h1x.Start(h1x.Opts{TCP: c.TCP, ReqMod: reqmod, ResMod: resmod})
 	if err != nil {
 		r.Inconclusive("harness: cannot start proxy/origin", err.Error())
 		return
 	}
 	env.RouteOrigin("origin.test:80")
 	garb := garbage(rng, false)
+	badhdr := badHeaderReply(rng)
 	sgarb := append([]byte("HTTP/1.1 200 OK\r\n"), garbage(rng, true)...)
 	env.Origin.Handle = func(conn, idx int, m *h1x.Msg) h1x.Action {
 		t := m.Target
@@ -401,6 +410,8 @@ func runFaultCase(r *vh.Run, c faultCase) {
 				return h1x.Action{Write: garb, Close: true}
 			case "status-garbage":
 				return h1x.Action{Write: sgarb, Close: true}
+			case "bad-header-bytes":
+				return h1x.Action{Write: badhdr, Close: true}
 			}
 		}
 		return h1x.Action{Close: true}
@@ -562,6 +573,9 @@ func runFaultCase(r *vh.Run, c faultCase) {
 			if c.TCP {
 				tr = "tcp"
 			}
+			if c.Logger {
+				tr += "+har-logger"
+			}
 			r.Class(fmt.Sprintf("%s|%s|%s|%s|%s|%s", framing, reg, mode, up, tr, outcome))
 			r.Count("fault_cases_judged", 1)
 			r.Count("client_bytes_parsed", int64(len(v.Data)))
@@ -674,12 +688,22 @@ func judge(c faultCase, can *canned, nonce string, v h1x.View, mod *recMod, sent
 			}
 			return
 		}
+		// A complete-looking response is a fabrication; it is a *desync* when
+		// the framing is broken too, i.e. when what follows it is not exactly
+		// the follow-up's own response (or nothing).
 		foreign := bytes.Contains(data[off:], []byte(markB))
+		if mA.Outcome == h1x.StComplete {
+			rest := data[off+mA.Len:]
+			mB := h1x.ParseResponse(rest, "GET", v.Closed)
+			if len(rest) == 0 || (mB.Outcome == h1x.StComplete && mB.Status == 200 && first(mB.Get("X-Marker")) == markB && bytes.Equal(mB.Body, bodyB) && len(rest) == mB.Len && !bytes.Contains(data[off:off+mA.Len], []byte(markB))) {
+				foreign = false
+			}
+		}
 		switch {
 		case foreign:
 			add("desync", "truncated-body", fmt.Sprintf("bytes of the follow-up response (marker %s) were delivered inside/after the truncated response without a close in between: first response %s", markB, descr(mA)))
 		case mA.Outcome == h1x.StComplete:
-			add("fabricated-complete", "truncated-body", "the origin's response was cut in the body but the client received a complete response: "+descr(mA))
+			add("fabricated-complete", "truncated-body", fmt.Sprintf("the origin's response was cut %d bytes after its head (full body %d bytes) but the client received a complete, correctly framed response that is not a 502: %s", max0(c.K-can.HeadLen), len(can.Body), descr(mA)))
 		case mA.Outcome == h1x.StMalformed:
 			add("malformed-response", "truncated-body", "the client received a malformed response: "+descr(mA))
 		case !v.Closed:
@@ -699,4 +723,42 @@ func first(a []string) string {
 		return ""
 	}
 	return a[0]
+}
+
+func max0(n int) int {
+	if n < 0 {
+		return 0
+	}
+	return n
+}
+
+// badHeaderReply is a reply that passes the status line and then has header
+// fields (with a colon) whose name or value contains bytes no HTTP header may
+// contain; the origin closes after it.
+func badHeaderReply(rng *rand.Rand) []byte {
+	ctl := []byte{0x00, 0x01, 0x07, 0x08, 0x0b, 0x0c, 0x1b, 0x1f, 0x7f}
+	var sb bytes.Buffer
+	sb.WriteString("HTTP/1.1 200 OK\r\n")
+	if rng.Intn(2) == 0 {
+		sb.WriteString("Content-Type: text/plain\r\n")
+	}
+	switch rng.Intn(3) {
+	case 0: // control bytes in a value
+		sb.WriteString("Server: acme")
+		for i, n := 0, 1+rng.Intn(6); i < n; i++ {
+			sb.WriteByte(ctl[rng.Intn(len(ctl))])
+			sb.WriteString([]string{"", "[0m", "x", " y"}[rng.Intn(4)])
+		}
+		sb.WriteString("\r\n")
+	case 1: // invalid byte in a name
+		sb.WriteString("X-Na")
+		sb.WriteByte(ctl[rng.Intn(len(ctl))])
+		sb.WriteString("me: value\r\n")
+	default: // both, plus quotes and backslashes that an escaper must cope with
+		sb.WriteString("X\"Q\\: a\"b\\")
+		sb.WriteByte(ctl[rng.Intn(len(ctl))])
+		sb.WriteString("\r\n")
+	}
+	sb.WriteString("Content-Length: 2\r\n\r\nok")
+	return sb.Bytes()
 }
